@@ -19,8 +19,11 @@ from pathlib import Path
 from typing import Any, Callable, Iterable
 
 ROOT = Path(__file__).resolve().parent.parent
-EVIDENCE_DIR = ROOT / "evidence"
-REPLAY_DIR = ROOT / "replays"
+# VERIF_OUT redirects evidence/replays (used by ./selftest so that runs against seeded defects
+# never overwrite the evidence of the real tree)
+_OUT = Path(os.environ["VERIF_OUT"]) if os.environ.get("VERIF_OUT") else ROOT
+EVIDENCE_DIR = _OUT / "evidence"
+REPLAY_DIR = _OUT / "replays"
 KNOWN_FILE = ROOT / "known_findings.json"
 EVIDENCE_SCHEMA = Path("/root/.vp/EVIDENCE.schema.json")
 
@@ -202,7 +205,7 @@ class Ctx:
             sha = hashlib.sha1(canon([key, v["replay"]]).encode()).hexdigest()[:12]
             path = d / f"{sha}.json"
             path.write_text(json.dumps({"property": self.prop, "part": v["part"], "key": key, "what": v["what"], "case": v["replay"]}, indent=1, sort_keys=True))
-            rel = os.path.relpath(path, ROOT)
+            rel = os.path.relpath(path, ROOT) if _OUT == ROOT else str(path)
             replay_paths.append(rel)
             lines.append(f"VIOLATION property={self.prop} replay={rel}")
             lines.append(f"  bucket={key} :: {v['what']}")
@@ -242,7 +245,7 @@ class Ctx:
             "wall_s": round(wall, 3),
             "violations": len(by_key),
         }
-        EVIDENCE_DIR.mkdir(exist_ok=True)
+        EVIDENCE_DIR.mkdir(parents=True, exist_ok=True)
         out = EVIDENCE_DIR / f"{self.prop}.json"
         out.write_text(json.dumps(ev, indent=1, sort_keys=True))
         problems = validate_evidence(ev)
